@@ -31,7 +31,7 @@ class C12(F.Spec):
     namespace = "SuplaVerif.C12"
     driver = "drv_dev"
     variant = "cfg"
-    model_args = ["calcfg"]
+    model_args = ["calcfg"]     # (the same driver also runs the configuration-button model: cbcfg / cbspan)
     rule = ("(A) server messages through the real dispatcher on boards relay1-8/rs1-4/mixed: CALCFG with every command of "
             "{enter-cfg, recalibrate, others}, both authorisation values (and 2, 255), data types/sizes, channels; plus "
             "all other dispatched call ids with well-sized payloads. The model predicts result code and cfg-mode entry; "
